@@ -222,7 +222,7 @@ Definition D_tvariants (vs : tvariants) : Prop := tvariants_wf vs = true -> tvar
          /\ bs = pre ++ rest /\ (tvariants_no_leb vs = true -> pre = bs').
 
 (** leaves whose printed form is re-read to exactly the bytes [pre] *)
-Ltac exact_leaf p := split; [apply (conv_ok_intro _ _ _ _ p p); [reflexivity|reflexivity|auto]|].
+Ltac exact_leaf p := split; [apply (conv_ok_intro _ _ _ _ p p); [first [reflexivity|eassumption]|reflexivity|auto]|].
 
 Lemma converse_all :
   (forall t, D_ty t) /\ (forall f, D_fields f) /\ (forall l, D_nfields l) /\ (forall l, D_tys l)
@@ -356,17 +356,17 @@ Proof.
     apply (conv_ok_intro _ _ _ _ p pre); [reflexivity|reflexivity|auto].
   - (* Struct *) intros f IHf Hw Hd bs j rest Hb H. unf_wf Hw. unf_df Hd. unf_to H. unf_goal. apply IHf; auto.
   - (* Enum *) intros vs IHvs Hw Hd bs j rest Hb H. unf_wf Hw. unf_df Hd. split_and Hd.
-    apply nodup_str_NoDup in Hd. apply N.leb_le in Hd0. unf_to H.
+    apply nodup_str_NoDup in Hd. apply N.leb_le in Hd1. unf_to H.
     destruct (N.leb_spec (N.of_nat (variants_len vs)) 256) as [H256|H256].
     + destruct (le_dec 1 bs) as [[i r]|] eqn:E; [|discriminate].
       destruct (le_dec_inv _ _ _ _ E Hb) as [-> [Hi Hr]].
-      destruct (IHvs Hw Hd1 Hd _ _ _ _ Hr H) as [name [fv [-> [Hin [Hlt [Hn [bs' [pre [Hfrom [-> Hx]]]]]]]]]].
+      destruct (IHvs Hw Hd0 Hd _ _ _ _ Hr H) as [name [fv [-> [Hin [Hlt [Hn [bs' [pre [Hfrom [-> Hx]]]]]]]]]].
       unf_goal. rewrite (Hfrom 0). rewrite N.add_0_l.
       destruct (N.leb_spec (N.of_nat (variants_len vs)) 256); [|lia]. rewrite Hn. split; [|reflexivity].
       apply (conv_ok_intro _ _ _ _ (le 1 i ++ bs') (le 1 i ++ pre)); [reflexivity|rewrite app_assoc; reflexivity|intros Hl; rewrite Hx by assumption; reflexivity].
     + destruct (le_dec 2 bs) as [[i r]|] eqn:E; [|discriminate].
       destruct (le_dec_inv _ _ _ _ E Hb) as [-> [Hi Hr]].
-      destruct (IHvs Hw Hd1 Hd _ _ _ _ Hr H) as [name [fv [-> [Hin [Hlt [Hn [bs' [pre [Hfrom [-> Hx]]]]]]]]]].
+      destruct (IHvs Hw Hd0 Hd _ _ _ _ Hr H) as [name [fv [-> [Hin [Hlt [Hn [bs' [pre [Hfrom [-> Hx]]]]]]]]]].
       unf_goal. rewrite (Hfrom 0). rewrite N.add_0_l.
       destruct (N.leb_spec (N.of_nat (variants_len vs)) 256); [lia|].
       destruct (N.leb_spec (N.of_nat (variants_len vs)) 65536); [|lia]. rewrite Hn. split; [|reflexivity].
@@ -377,10 +377,11 @@ Proof.
     unf_goal. rewrite Hwl. exact_leaf (l ++ x). reflexivity.
   - (* ContractName *) intros s _ _ bs j rest Hb H. unf_to H.
     destruct (dec_string s bs) as [[x r]|] eqn:E; [|discriminate].
-    destruct (valid_contract_name x) eqn:Ev; [|discriminate]. injection H as <- <-.
+    destruct (valid_contract_name x) eqn:Ev; [|discriminate].
+    remember (skipn 5 x) as nm eqn:Enm. injection H as <- <-.
     destruct (dec_string_inv _ _ _ _ E Hb) as [l [Hwl [-> _]]].
-    assert (Hx : s_init_ ++ skipn 5 x = x).
-    { unfold valid_contract_name in Ev. split_and Ev. exact (starts_with_skipn s_init_ x Ev). }
+    assert (Hx : s_init_ ++ nm = x).
+    { subst nm. unfold valid_contract_name in Ev. split_and Ev. exact (starts_with_skipn s_init_ x Ev). }
     unf_goal. rewrite eq_contract, Hx, Ev, Hwl. exact_leaf (l ++ x). reflexivity.
   - (* ReceiveName *) intros s _ _ bs j rest Hb H. unf_to H.
     destruct (dec_string s bs) as [[x r]|] eqn:E; [|discriminate].
@@ -519,3 +520,21 @@ Theorem printed_json_normal : forall t bs j rest,
 Proof. intros t bs j rest Hw Hd Hb H. exact (proj2 (proj1 converse_all t Hw Hd bs j rest Hb H)). Qed.
 
 End WithLeaves.
+
+(** the executable leaf instance satisfies the hypothesis (non-vacuity) *)
+Lemma stub_leaves_rt : leaves_rt stub_leaves.
+Proof.
+  split.
+  - intros a Hl Hb. cbn [acc_parse acc_show stub_leaves]. rewrite hex_decode_encode by exact Hb.
+    rewrite Hl. reflexivity.
+  - intros m Hm. cbn [ts_parse ts_show stub_leaves]. apply parse_unsigned_show. exact Hm.
+  - intros m Hm. cbn [dur_parse dur_show stub_leaves]. apply parse_unsigned_show. exact Hm.
+Qed.
+
+(** The only byte strings [to_json] reads that [from_json] never writes: LEB128 integers with
+    redundant groups - unsigned: trailing groups that are zero ([80 00] for 0); signed: trailing groups that
+    only repeat the sign ([ff 7f] for -1, [80 00] for 0). *)
+Example leb_padding_read_not_written :
+  to_json stub_leaves (TULeb128 2) [128; 0] = Some (JStr [48], []) /\ from_json stub_leaves (TULeb128 2) (JStr [48]) = Some [0]
+  /\ to_json stub_leaves (TILeb128 2) [255; 127] = Some (JStr [45; 49], []) /\ from_json stub_leaves (TILeb128 2) (JStr [45; 49]) = Some [127].
+Proof. vm_compute. repeat split; reflexivity. Qed.
